@@ -80,6 +80,12 @@ def buf_some(t):
         while x[0] == "mut":
             x = look(x[1])
         return x
+    if is_call(t, "std::option::Option::<T>::insert", "std::option::Option::<T>::get_or_insert") and len(t[2]) == 2:
+        # `self.response_buffer.insert(vec)`: stores Some(vec) and hands back a reference to the stored vector
+        x = look(t[2][0])
+        while x[0] == "mut":
+            x = look(x[1])
+        return x
     return None
 
 
@@ -100,9 +106,23 @@ def paths(ctx, remap=None, only=None):
         if buf_none is None:
             bs = conn.atom_truth(lf, lambda t: is_call(t, "is_some") and self_field(t[2][0], "response_buffer"))
             buf_none = None if bs is None else not bs
+        if buf_none is None:
+            # `match self.response_buffer.as_mut() { None => .., Some(v) => .. }` (first test of it on the path)
+            for (t, c, _b) in lf.conds:
+                if t[0] == "discr":
+                    x = look(t[1])
+                    if is_call(x, "as_mut", "as_ref"):
+                        x = look(x[2][0])
+                    if self_field(x, "response_buffer") and option_is_some(c) is not None:
+                        buf_none = not option_is_some(c)
+                        break
         pops = [e for e in lf.events if e[0] == "call" and last_seg(e[3]) in ("pop_front", "pop_back", "remove", "swap_remove_front") and self_field(e[4][2][0], "response_queue")]
         sers = [e for e in lf.events if e[0] == "call" and e[3] == "response::Response::write_all"]
         stores = [e for e in lf.events if e[0] == "assign" and e[3] == "(*_1).response_buffer"]
+        for e in lf.events:
+            if e[0] == "call" and e[3] in ("std::option::Option::<T>::insert", "std::option::Option::<T>::get_or_insert", "std::option::Option::<T>::replace") and len(e[4][2]) == 2 and self_field(e[4][2][0], "response_buffer"):
+                # Option::insert(&mut self.response_buffer, v) is `self.response_buffer = Some(v)`
+                stores.append(("assign", e[1], None, "(*_1).response_buffer", ("agg", "std::option::Option", "Some", (e[4][2][1],)), None))
         # R06.4
         if pops or sers:
             ok = buf_none is True and len(pops) == 1 and last_seg(pops[0][3]) == "pop_front"
@@ -115,7 +135,11 @@ def paths(ctx, remap=None, only=None):
             failed = result_outcome(lf, s[4]) == "err"
             if failed:
                 seen.add("serialize-error")
-                ctx.ob("R06.4", "serialize-error-propagated", rk[0] == "prop" and not sc, "a serialization error is returned and the stream is not touched", fn.loc(lf.bb))
+                returned = rk[0] == "prop"
+                if rk[0] == "Err":
+                    ev_ = look(rk[1])
+                    returned = ev_[0] == "agg" and ev_[2] == "StreamWriteError" and ev_[3] and look(ev_[3][0])[0] == "field" and look(ev_[3][0])[1][0] == "downcast" and look(ev_[3][0])[1][2] == "Err" and norm(look(look(ev_[3][0])[1][1])) == norm(s[4])
+                ctx.ob("R06.4", "serialize-error-propagated", returned and not sc, "a serialization error is returned and the stream is not touched", fn.loc(lf.bb))
                 continue
             ok_store = len(stores) >= 1 and stores[0][4][0] == "agg" and stores[0][4][2] == "Some"
             if ok_store:
@@ -221,7 +245,11 @@ def paths(ctx, remap=None, only=None):
             if rv["k"] in ("ref", "rawptr") and any(e["k"] == "field" and e["name"] == "stream" and e.get("of") == conn.HC for e in rv["place"]["proj"]):
                 users.setdefault(f.name, 0)
                 users[f.name] += 1
-    ctx.ob("R06.1", "stream-users", set(users) <= {conn.TRY_WRITE, conn.RECV}, "functions that borrow HttpConnection.stream: %s" % sorted(users))
+    from .util import writer_roots
+    roots = set()
+    for u in users:
+        roots |= writer_roots(facts, u)
+    ctx.ob("R06.1", "stream-users", roots <= {conn.TRY_WRITE, conn.RECV}, "functions that borrow HttpConnection.stream: %s (on behalf of %s)" % (sorted(users), sorted(roots)))
 
 
 def strip_mut(t):
